@@ -148,6 +148,10 @@ class FnView:
                 init = n.get("init")
                 if n["pat"].get("k") == "pbind":
                     self.let_bound.add(n["pat"]["id"])
+                elif n["pat"].get("k") == "ptuple" and init is not None:
+                    for sp_ in n["pat"].get("ps", []):
+                        if sp_.get("k") == "pbind":
+                            self.let_bound.add(sp_["id"])     # `let (a, b) = (x, y);` binds a and b where it stands
                 self._bind(n["pat"], ("node", init) if init is not None else ("uninit",))
             elif k == "for":
                 self._bind(n["pat"], ("item", n["iter"]))
@@ -1290,7 +1294,10 @@ def subst(t, env):
         return env[t]
     if t[0] == "bin":
         return mk_bin(t[1], subst(t[2], env), subst(t[3], env))
-    return tuple(subst(x, env) if isinstance(x, tuple) else x for x in t)
+    r = tuple(subst(x, env) if isinstance(x, tuple) else x for x in t)
+    if r[0] == "proj" and isinstance(r[2], tuple) and r[2] and r[2][0] == "tup" and isinstance(r[1], int) and r[1] < len(r[2]) - 1:
+        return r[2][1 + r[1]]          # a component of a tuple value that is known by now
+    return r
 
 
 def straightline(fv, stmts, tracked):
@@ -1447,6 +1454,12 @@ def sym_paths(fv, root, limit=60000):
                     st[lt] = mk_bin(n["op"].rstrip("="), st.get(lt, lt), cur(fv.term(n["r"])))
                 elif k == "let":
                     p = n["pat"]
+                    if p.get("k") == "ptuple" and n.get("init") is not None:
+                        tv = cur(fv.term(n["init"]))
+                        for i_, sp_ in enumerate(p.get("ps", [])):
+                            if sp_.get("k") == "pbind":
+                                comp = tv[1 + i_] if tv[0] == "tup" and i_ < len(tv) - 1 else ("proj", i_, tv)
+                                st[("local", sp_["name"], sp_["id"])] = comp
                     if p.get("k") == "pbind" and n.get("init") is not None:
                         if n["init"].get("k") in ("if", "match", "block") and sp.value is not None:
                             # the initialiser is a control expression: its value on THIS path is the branch value
